@@ -33,6 +33,10 @@
 (*                             (after DATA / RSET / EHLO, or a refused    *)
 (*                             MAIL following one of them)                *)
 (*  PermitHeldAtSessionEnd     permits in use after the session ended     *)
+(*  CommittedWithoutBody       Commit succeeded on a target that was never *)
+(*                             handed the body in this transaction (a     *)
+(*                             transaction refused before the commit step *)
+(*                             is committed to no target)                 *)
 (*  ServerCrash                the server process died (panic outside any *)
 (*                             recover): every open delivery is lost      *)
 (***************************************************************************)
@@ -49,8 +53,10 @@ NoTx == [ acc  |-> <<>>,                                  \* accepted recipients
           st   |-> [t \in AllTargets |-> [r \in AllRcpts |-> "none"]],
           com  |-> [t \in AllTargets |-> "none"] ]
 
-ObsInit(lmtp) ==
+\* base: permits of each scope held by other sessions for the whole conversation
+ObsInit(lmtp, base) ==
   [ lmtp  |-> lmtp,
+    base  |-> base,
     open  |-> [t \in AllTargets |-> 0],
     cmd   |-> [v |-> "", a |-> "", r |-> ""],
     quiet |-> TRUE,       \* no transaction in progress: before MAIL, after DATA / RSET / EHLO
@@ -86,7 +92,7 @@ Settle(o) ==
 
 ObsPermits(o0, all, ip, src) ==
   LET o == Settle(o0)
-  IN V(o, ~o.quiet \/ (all = 0 /\ ip = 0 /\ src = 0), "PermitHeldOutsideTransaction")
+  IN V(o, ~o.quiet \/ (all = o.base /\ ip = o.base /\ src = o.base), "PermitHeldOutsideTransaction")
 
 ObsCmd(o0, v, a, r) ==
   LET o == Settle(o0)
@@ -103,8 +109,9 @@ ObsTgt(o, t, op, r, res, st, ts) ==
                                       !.tx.st[t] = [x \in AllRcpts |->
                                            IF x \in DOMAIN st THEN (IF st[x] = "ok" THEN "ok" ELSE "fail")
                                            ELSE "none"]]
-       [] op = "commit" -> [o1 EXCEPT !.tx.com[t] = IF res = "ok" THEN "ok" ELSE "fail",
-                                      !.open[t] = IF ts = "ok" THEN dec(@) ELSE @]
+       [] op = "commit" -> LET o2 == V(o1, res # "ok" \/ o.tx.body[t] # "none", "CommittedWithoutBody")
+                           IN [o2 EXCEPT !.tx.com[t] = IF res = "ok" THEN "ok" ELSE "fail",
+                                         !.open[t] = IF ts = "ok" THEN dec(@) ELSE @]
        [] op = "abort"  -> [o1 EXCEPT !.open[t] = IF ts = "ok" THEN dec(@) ELSE @]
        [] OTHER -> o1
 
@@ -138,7 +145,7 @@ ObsReply(o, code) ==
 ObsEnd(o0, open, all, ip, src) ==
   LET o  == Settle(o0)
       o1 == V(o, \A t \in AllTargets : open[t] = 0, "DeliveryOpenAtSessionEnd")
-  IN V(o1, all = 0 /\ ip = 0 /\ src = 0, "PermitHeldAtSessionEnd")
+  IN V(o1, all = o.base /\ ip = o.base /\ src = o.base, "PermitHeldAtSessionEnd")
 
 ObsCrash(o) == V(o, FALSE, "ServerCrash")
 =============================================================================
